@@ -646,7 +646,7 @@ func init() {
 		}
 		bound2, bound3, nRandom, limit := 1, 0, 300, 4000
 		if thorough() {
-			bound2, bound3, nRandom, limit = 2, 1, 5000, 60000
+			bound2, bound3, nRandom, limit = 3, 1, 20000, 400000
 		}
 		var mu sync.Mutex
 		var jobs []func()
